@@ -222,7 +222,7 @@ fn print_obj(p: &mut Printed, o: &Obj, path: &mut Vec<usize>, ind: usize, style:
         }
         i = j;
         // a value ending in '}' followed by ';' is fine; a multi-line value forces a newline
-        if style.semicolons && i < o.binds.len() && !o.binds[i - 1].value.contains('\n') {
+        if style.semicolons && !groupable && i < o.binds.len() && !o.binds[i - 1].value.contains('\n') {
             p.text.push_str(sep);
             // the terminating ';' belongs to the binding statement
             if !groupable {
